@@ -885,29 +885,34 @@ pub fn run(ctx: &Ctx) {
     let builds = builds_for(ctx);
     let max_b = if ctx.thorough() { 10 } else { 5 };
     if c06 {
-        ctx.run_prop_opts("release", ctx.cases(40, 1500), 150, case_strategy(true, builds.clone(), false, max_b), |c| env.attempt(c));
-        env.shrinking.set(false);
-        ctx.run_prop_opts("release-strace", ctx.cases(6, 120), 60, case_strategy(true, builds.clone(), true, 2), |c| env.attempt(c));
-        env.shrinking.set(false);
         // fixed cases: the complete (type x return|panic x disposition) matrix under strace, and the two minimal
         // histories in which a heap-owning result meets a dropped handle (one per outcome of the flag race)
         if let Some(case) = ctx.replay_case::<Case>("fixed") {
             ctx.run_one("fixed", &case, || env.attempt(&case));
+        } else if let Some(case) = ctx.replay_case::<Case>("fixed-min") {
+            ctx.run_one("fixed-min", &case, || env.attempt(&case));
         } else if !ctx.is_replay() {
             let mut all = Vec::new();
+            for build in &builds {
+                all.push(Case { build: build.to_string(), strace: false, fault: None, batches: vec![Batch { specs: vec![sp(TY_VEC, false, DISP_DROP_NOW, false, Delay::Spin(100_000), Delay::None, 8, 77)] }] });
+                all.push(Case { build: build.to_string(), strace: false, fault: None, batches: vec![Batch { specs: vec![sp(TY_VEC, false, DISP_DROP_LATER, false, Delay::None, Delay::Sleep(2_000_000), 8, 78)] }] });
+            }
             for build in &builds {
                 for strace in [false, true] {
                     all.push(Case { build: build.to_string(), strace, fault: None, batches: matrix_batches() });
                 }
-                all.push(Case { build: build.to_string(), strace: false, fault: None, batches: vec![Batch { specs: vec![sp(TY_VEC, false, DISP_DROP_NOW, false, Delay::Spin(100_000), Delay::None, 8, 77)] }] });
-                all.push(Case { build: build.to_string(), strace: false, fault: None, batches: vec![Batch { specs: vec![sp(TY_VEC, false, DISP_DROP_LATER, false, Delay::None, Delay::Sleep(2_000_000), 8, 78)] }] });
             }
             for (k, case) in all.iter().enumerate() {
-                if k as u32 % ctx.nworkers == ctx.worker && !ctx.run_one("fixed", case, || run_case(&env, case)) {
+                let name = if case.batches[0].specs.len() == 1 { "fixed-min" } else { "fixed" };
+                if k as u32 % ctx.nworkers == ctx.worker && !ctx.run_one(name, case, || run_case(&env, case)) {
                     break;
                 }
             }
         }
+        ctx.run_prop_opts("release", ctx.cases(40, 1500), 150, case_strategy(true, builds.clone(), false, max_b), |c| env.attempt(c));
+        env.shrinking.set(false);
+        ctx.run_prop_opts("release-strace", ctx.cases(6, 120), 60, case_strategy(true, builds.clone(), true, 2), |c| env.attempt(c));
+        env.shrinking.set(false);
     } else {
         ctx.run_prop_opts("join", ctx.cases(40, 1500), 150, case_strategy(false, builds.clone(), false, max_b), |c| env.attempt(c));
         env.shrinking.set(false);
@@ -916,13 +921,15 @@ pub fn run(ctx: &Ctx) {
         // complete fault enumeration on the fixed batches: every stack mmap, every clone (x EAGAIN, ENOMEM)
         if let Some(case) = ctx.replay_case::<Case>("fault") {
             ctx.run_one("fault", &case, || env.attempt(&case));
+        } else if let Some(case) = ctx.replay_case::<Case>("fault-min") {
+            ctx.run_one("fault-min", &case, || env.attempt(&case));
         } else if !ctx.is_replay() {
             let fixed = fixed_batches();
             let mut all = Vec::new();
             for build in &builds {
                 for b in &fixed {
                     for idx in 0..b.specs.len() as u32 {
-                        for (t, e) in [("stack-mmap", "ENOMEM"), ("clone", "EAGAIN"), ("clone", "ENOMEM")] {
+                        for (t, e) in [("clone", "EAGAIN"), ("clone", "ENOMEM"), ("stack-mmap", "ENOMEM")] {
                             all.push(Case { build: build.to_string(), strace: true, fault: Some(Fault { target: t.into(), index: idx, errno: e.into() }), batches: vec![b.clone()] });
                         }
                     }
@@ -933,7 +940,9 @@ pub fn run(ctx: &Ctx) {
                 if k as u32 % ctx.nworkers != ctx.worker {
                     continue;
                 }
-                if !ctx.run_one("fault", case, || run_case(&env, case)) {
+                // the one-thread batch is its own sub-check so that its replay file is the minimal one
+                let name = if case.batches[0].specs.len() == 1 { "fault-min" } else { "fault" };
+                if !ctx.run_one(name, case, || run_case(&env, case)) {
                     complete = false;
                     break;
                 }
